@@ -99,4 +99,57 @@ example : clause false (some 1) ⟨some 0, 5⟩ ⟨none, 1⟩ = true ∧ clause 
 /-- the state lookup of the old code (`none` whatever was stored) on a clean tour: the clause holds although nothing is left -/
 example : clause false none ⟨some 0, 5⟩ ⟨none, 1⟩ = true := by decide
 
+/-! ### any number of clean-up steps -/
+
+/-- one clean-up step somewhere in the solution: a reload between two neighbouring intervals is dropped under the rule -/
+inductive Step (cap : Nat → Int) : List Iv → List Iv → Prop
+  | drop (l rest : List Iv) (a b : Iv) (hb : 0 ≤ b.deliv)
+      (hok : mergeOk cap (l ++ a :: b :: rest) a b = true) :
+      Step cap (l ++ a :: b :: rest) (l ++ mergeIv a b :: rest)
+
+/-- any number of steps -/
+inductive Steps (cap : Nat → Int) : List Iv → List Iv → Prop
+  | refl (ivs : List Iv) : Steps cap ivs ivs
+  | tail {x y z : List Iv} : Steps cap x y → Step cap y z → Steps cap x z
+
+theorem step_keeps_within (cap : Nat → Int) {x y : List Iv} (h : Step cap x y) (hw : Within cap x) : Within cap y := by
+  cases h with
+  | drop l rest a b hb hok => exact merge_keeps_within cap l rest a b hw hb hok
+
+/-- **every solution reachable by clean-up steps under the rule keeps every shared resource within its capacity** - any number
+of steps, tours, intervals and resources -/
+theorem steps_keep_within (cap : Nat → Int) {x y : List Iv} (h : Steps cap x y) (hw : Within cap x) : Within cap y := by
+  induction h with
+  | refl => exact hw
+  | tail _ hstep ih => exact step_keeps_within cap hstep ih
+
+/-- total of all deliveries -/
+def total : List Iv → Int
+  | [] => 0
+  | iv :: rest => iv.deliv + total rest
+
+theorem total_append (xs ys : List Iv) : total (xs ++ ys) = total xs + total ys := by
+  induction xs with
+  | nil => simp [total]
+  | cons x xs ih => simp [total, ih]; omega
+
+/-- a clean-up step loses no delivery: what is served stays served (the C02 side of the step) -/
+theorem step_keeps_total (cap : Nat → Int) {x y : List Iv} (h : Step cap x y) : total y = total x := by
+  cases h with
+  | drop l rest a b hb hok => simp [total_append, total, mergeIv]; omega
+
+theorem steps_keep_total (cap : Nat → Int) {x y : List Iv} (h : Steps cap x y) : total y = total x := by
+  induction h with
+  | refl => rfl
+  | tail _ hstep ih => rw [step_keeps_total cap hstep, ih]
+
+/-- every step removes exactly one interval: the clean-up terminates after at most `length - 1` steps -/
+theorem step_length (cap : Nat → Int) {x y : List Iv} (h : Step cap x y) : y.length + 1 = x.length := by
+  cases h with
+  | drop l rest a b hb hok => simp; omega
+
+/-- not vacuous: a step exists (one unit left of res0, one unit moves) -/
+example : Step (fun _ => 6) ([] ++ ⟨some 0, 5⟩ :: ⟨none, 1⟩ :: []) ([] ++ mergeIv ⟨some 0, 5⟩ ⟨none, 1⟩ :: []) :=
+  Step.drop [] [] ⟨some 0, 5⟩ ⟨none, 1⟩ (by decide) (by decide)
+
 end VrpProofs.C01Reload
